@@ -107,7 +107,8 @@ namespace bloch::runtime {
     // Object values carry the STATIC class of the expression they came from (declared
     // variable/parameter/field/return type); overloads are chosen from it, as the analyser does.
     static Value withStaticClass(Value v, const std::string& className) {
-        if (v.type == Value::Type::Object && v.objectValue && !className.empty())
+        // (a null reference too: 'Animal n = null; k.f(n)' passes an Animal)
+        if (v.type == Value::Type::Object && !className.empty())
             v.className = className;
         return v;
     }
@@ -1031,8 +1032,14 @@ namespace bloch::runtime {
             case Value::Type::Qubit:
                 return actual.type == Value::Type::Qubit ? std::optional<int>(0) : std::nullopt;
             case Value::Type::Object: {
-                if (isNullReference(actual))
-                    return 3;
+                if (isNullReference(actual)) {
+                    // the literal null fits every class alike; a null that came through a typed
+                    // slot is an expression of that type, as for the analyser
+                    if (actual.className.empty() || expected.className.empty())
+                        return 3;
+                    int distance = runtimeInheritanceDistance(actual.className, expected.className);
+                    return distance >= 0 ? std::optional<int>(distance) : std::nullopt;
+                }
                 if (actual.type != Value::Type::Object)
                     return std::nullopt;
                 if (expected.className.empty())
